@@ -13,6 +13,7 @@ import (
 	"encoding/binary"
 	"encoding/json"
 	"fmt"
+	"io"
 	"time"
 
 	"github.com/blevesearch/mmap-go"
@@ -146,9 +147,11 @@ func ScanFooter(options *StoreOptions, fref *FileRef, fileName string,
 			}
 
 			n, err := fref.file.ReadAt(footerBeg, pos)
-			if err != nil {
+			if err != nil && err != io.EOF {
 				return nil, err
 			}
+			// A short read (EOF) only means that no complete footer can
+			// start on this last, partially written page; keep scanning.
 
 			if n == footerBegLen &&
 				bytes.Equal(StoreMagicBeg, footerBeg[:lenMagicBeg]) &&
@@ -180,9 +183,11 @@ func ScanFooter(options *StoreOptions, fref *FileRef, fileName string,
 		data := make([]byte, int64(length)-int64(footerBegLen))
 
 		n, err := fref.file.ReadAt(data, pos+int64(footerBegLen))
-		if err != nil {
+		if err != nil && err != io.EOF {
 			return nil, err
 		}
+		// A short read (EOF) means this footer was torn by a crash; it
+		// is invalid, so keep scanning for an older, complete footer.
 
 		if n == len(data) &&
 			bytes.Equal(StoreMagicEnd, data[n-lenMagicEnd*2:n-lenMagicEnd]) &&
